@@ -48,7 +48,16 @@ def cap_in_flight(steps, limit=None):
 
 # ------------------------------------------------------------------------------------------------ sessions
 
-def run_session(bindir, script, extra_s=15):
+def pin_to_one_cpu():
+    """preexec_fn: restrict the child to one CPU (std::thread::available_parallelism() == 1); False if impossible"""
+    try:
+        cpu = sorted(os.sched_getaffinity(0))[0]
+        return lambda: os.sched_setaffinity(0, {cpu})
+    except Exception:      # noqa
+        return None
+
+
+def run_session(bindir, script, extra_s=15, preexec_fn=None):
     """Runs one lspdrive session.  Never hangs: lspdrive has its own hard limit; the subprocess timeout is a
     second line of defence.  Returns the parsed output (dict) with 'crashed' set when there is none."""
     os.makedirs(TMP, exist_ok=True)
@@ -56,7 +65,7 @@ def run_session(bindir, script, extra_s=15):
     try:
         p = subprocess.run([os.path.join(bindir, "lspdrive")], input=json.dumps(script), stdout=subprocess.PIPE,
                            stderr=subprocess.PIPE, text=True, timeout=hard / 1000.0 + extra_s,
-                           env=dict(os.environ, LSPDRIVE_TMP=TMP))
+                           env=dict(os.environ, LSPDRIVE_TMP=TMP), preexec_fn=preexec_fn)
     except subprocess.TimeoutExpired:
         return {"crashed": "lspdrive did not exit within its hard limit", "log": [], "timed_out": True,
                 "unanswered": [], "server_exited": False}
